@@ -91,11 +91,12 @@ def seed_entries():
     for d in sorted(os.listdir(root)) if os.path.isdir(root) else []:
         mp, pp = os.path.join(root, d, 'meta.json'), os.path.join(root, d, 'patch.diff')
         if os.path.exists(mp) and os.path.exists(pp):
-            out.append((d, json.load(open(mp))['property'], pp))
+            m = json.load(open(mp))
+            out.append((d, m['property'], pp, 'quiet' if m.get('kind') == 'behaviour-preserving' else 'violation'))
     return out
 
 def run_seed(entry):
-    name, check, patch = entry
+    name, check, patch, expect = entry
     scr = tempfile.mkdtemp(prefix='selftest_', dir='/tmp')
     try:
         shutil.copytree(os.path.join(REPO, 'pytableaux'), os.path.join(scr, 'pytableaux'))
@@ -104,6 +105,9 @@ def run_seed(entry):
         env = dict(os.environ, VERIF_REPO=scr)
         r = subprocess.run([os.path.join(VERIF, 'vf'), 'check', check], capture_output=True, text=True, env=env, timeout=1800)
         viol = [l for l in r.stdout.splitlines() if l.startswith('VIOLATION')]
+        if expect == 'quiet':
+            ok = r.returncode == 0 and not viol          # a behaviour-preserving change: no alarm, and decided
+            return name, 'ok' if ok else 'FAIL', f'{check} exit={r.returncode} violations={len(viol)} (expected quiet) ' + ' | '.join(l[:100] for l in r.stdout.splitlines() if l.startswith(('VIOLATION', 'UNDECIDED', 'CHECKER')))[:200]
         ok = r.returncode == 1 and bool(viol)
         return name, 'ok' if ok else 'FAIL', f'{check} exit={r.returncode} violations={len(viol)} ' + (viol[0].split('#', 1)[-1].strip()[:100] if viol else '')
     finally:
